@@ -189,6 +189,19 @@ pub fn check_case(door: Door, b: &[u8], case: &mut Case) {
                         Err(e) => case.fail(format!("result-not-observable:{}", api), e),
                     }
                 }
+                // clause (4) for the payload the struct decoder hands out: incomplete exactly when the length field that
+                // bounds it (IP length field, else the MACsec short length of the last link extension) promised more
+                let want_inc = match want.net() {
+                    Some(n) if n.kind != RK::Arp => n.incomplete,
+                    Some(_) => false,
+                    None => want.layers.iter().rev().find(|l| matches!(l.kind, RK::Eth2 | RK::Sll | RK::Vlan | RK::Macsec)).map(|l| l.kind == RK::Macsec && l.incomplete).unwrap_or(false),
+                };
+                if lax_payload_incomplete(&h.payload) != want_inc {
+                    case.fail(
+                        format!("incomplete-flag:{}:payload:{}", api, payload_variant(&h.payload)),
+                        format!("{}: payload {} incomplete={} but the length field bounding it {} more than the slice holds; reference {}", api, payload_variant(&h.payload), lax_payload_incomplete(&h.payload), if want_inc { "promised" } else { "did not promise" }, want.shape()),
+                    );
+                }
                 // clause (1) against the strict struct decoder
                 if let Some(Ok(s)) = strict {
                     if h.stop_err.is_some() {
